@@ -35,6 +35,17 @@ def evalV (l : Locals) (dataLen : Nat) : V → Option Int
   | .asU32 e => (evalV l dataLen e).map (· % 4294967296)
   | .dataLen => some dataLen
   | .add a b => do let x ← evalV l dataLen a; let y ← evalV l dataLen b; some (x + y)
+  | .bin op a b => do
+    let x ← evalV l dataLen a
+    let y ← evalV l dataLen b
+    if op = "sub" then some (x - y)
+    else if y < 0 then none
+    else if op = "shl" then some (x * 2 ^ y.toNat)
+    else if op = "shr" then some (x / 2 ^ y.toNat)
+    else if x < 0 then none
+    else if op = "band" then some (Int.ofNat (x.toNat &&& y.toNat))
+    else if op = "bor" then some (Int.ofNat (x.toNat ||| y.toNat))
+    else none
   | .matchInt e arms dflt => do
     let v ← evalV l dataLen e
     match arms.find? (·.1 == v) with
